@@ -255,10 +255,15 @@ def rejected_docs(fmt):
         t1 = G.srt_timing(*G.times(1))[:12].replace(",", ".")
         t0 = G.srt_timing(*G.times(0))[:12].replace(",", ".")
         out = [good.replace('begin="%s"' % t1, 'begin="bogus"'), good.replace('begin="%s"' % t0, 'begin="1:xx"'),
-               good[:good.index("tail")], good.replace('end="', 'end="x', 1)]
+               good[:good.index("tail")], good.replace('end="', 'end="x', 1),
+               # round 3: a malformed later paragraph after a paragraph with inline elements and a break
+               doc_of("DFXP", ['STALE mid <span tts:fontStyle="italic">para</span><br/>rest', "tail"]).replace('begin="%s"' % t1, 'begin="later"')]
     elif fmt == "SAMI":
         out = [good.replace("<SYNC Start=%d>" % (G.times(1)[0] // 1000), "<SYNC Start=abc>"), good[:good.index("tail")],
-               "<SAMI><BODY></BODY></SAMI>", good.replace("lang: en-US;", "")]
+               "<SAMI><BODY></BODY></SAMI>", good.replace("lang: en-US;", ""),
+               # round 3: the reader raises IN THE MIDDLE of a paragraph, after some of its words were translated
+               doc_of("SAMI", ['STALE mid <i>para</i> <span class="">x</span> rest', "tail"]),
+               doc_of("SAMI", ["old &amp; gone", 'second STALE <b>words</b><br/>more <span class="">x</span>', "tail"])]
     elif fmt == "WebVTT":
         t1 = G.vtt_timing(*G.times(1))
         out = [good.replace(t1, t1.replace("-->", "--> x")), good.replace(t1, "00:00:09.000 --> 00:00:01"),
@@ -1017,6 +1022,81 @@ def run_strings_dfxp(ctx, res, n):
             res["violations"].append(dict(v, fmt="DFXP", shape="dfxp-strings", replay="dfxp-str", input=c))
 
 
+# ---- stream T (round 3): SRT / WebVTT / MicroDVD documents with CR, CRLF and mixed line ends ----------------------------
+def _line_ends(doc, mode, rng):
+    if mode == "CR":
+        return doc.replace("\n", "\r")
+    if mode == "CRLF":
+        return doc.replace("\n", "\r\n")
+    out = []
+    for ch in doc:
+        if ch == "\n":
+            e = rng.choice(["\r", "\n", "\r\n", "\r"])
+            if e == "\n" and out and out[-1].endswith("\r"):
+                e = "\r\n"                    # CR followed by LF would be ONE line end (CRLF): keep two line ends two
+            out.append(e)
+        else:
+            out.append(ch)
+    return "".join(out)
+
+
+def judge_line_end_doc(fmt, doc, expected):
+    """-> None or (kind, what, observed): the document must read as its LF twin: one caption per cue, lines = display"""
+    got = impl.call(lambda: READERS[fmt]().read(doc))
+    if not isinstance(got, Ok):
+        return ("reader-raises", f"{fmt} reader raised {impl.ERR_NAMES.get(got.code, got.code)}", None)
+    caps = _caps_of(got.v)
+    lines = [G.py_lines(text_break(n)) for n in caps.v]
+    if len(lines) != len(expected):
+        return ("cue-count", f"{fmt}: {len(expected)} cues, {len(lines)} captions", lines)
+    oks = oracle_batch([(413, [e, l]) for e, l in zip(expected, lines)])
+    for e, l, ok in zip(expected, lines, oks):
+        if ok != 1:
+            return ("text-differs", f"{fmt}: caption text {l!r}, the cue displays {e!r}", lines)
+    return None
+
+
+def run_line_ends(ctx, res, nbatch):
+    rng = ctx.rng
+    d = res["distribution"]
+    for fmt in ("SRT", "WebVTT", "MicroDVD"):
+        for _ in range(nbatch):
+            cues = [rand_cue(rng, fmt, rng.choice([0.2, 0.5])) for _ in range(8)]
+            wires = [wire_items(c) for c in cues]
+            contents = oracle_batch([(400, [FMT[fmt], w]) for w in wires])
+            shown = oracle_batch([(401, w) for w in wires])
+            keep = [(s, sh) for s, sh in zip(contents, shown)
+                    if not in_domain(fmt, s) and any(l.strip() for l in sh) and "\r" not in s]
+            if not keep:
+                continue
+            # keep the cues whose LF twin reads correctly (the others - known findings of the WebVTT reader - belong to A / B)
+            got = impl.call(lambda: READERS[fmt]().read(doc_of(fmt, [s for s, _ in keep])))
+            caps = _caps_of(got.v).v if isinstance(got, Ok) else []
+            if len(caps) != len(keep):
+                d["T_lf_twin_already_fails"] = d.get("T_lf_twin_already_fails", 0) + 1
+                continue
+            oks = oracle_batch([(413, [sh, G.py_lines(text_break(n))]) for (_, sh), n in zip(keep, caps)])
+            d["T_cues_dropped_lf_twin_fails"] = d.get("T_cues_dropped_lf_twin_fails", 0) + sum(1 for o in oks if o != 1)
+            keep = [k for k, o in zip(keep, oks) if o == 1]
+            if not keep:
+                continue
+            lf = doc_of(fmt, [s for s, _ in keep])
+            expected = [sh for _, sh in keep]
+            if judge_line_end_doc(fmt, lf, expected) is not None:
+                d["T_lf_twin_already_fails"] = d.get("T_lf_twin_already_fails", 0) + 1      # reported by streams A / B, not here
+                continue
+            for mode in ("CR", "mixed", "CRLF"):
+                doc = _line_ends(lf, mode, rng)
+                res["evaluations"] += len(keep)
+                d["T_%s_%s_cues" % (fmt, mode)] = d.get("T_%s_%s_cues" % (fmt, mode), 0) + len(keep)
+                res["nontrivial"].add((fmt + "-" + mode, doc))
+                v = judge_line_end_doc(fmt, doc, expected)
+                if v is not None:
+                    res["violations"].append({"kind": v[0], "fmt": fmt, "shape": "line-ends-" + mode, "replay": "doc-lines",
+                                              "what": "%s (line ends %s; the LF twin reads correctly)" % (v[1], mode),
+                                              "document": doc, "expected": expected, "observed": v[2], "input": []})
+
+
 def run(ctx):
     res = {"evaluations": 0, "nontrivial": set(), "violations": [], "disagreements": [], "distribution": {},
            "streams": 5, "notes": []}
@@ -1070,6 +1150,7 @@ def run(ctx):
         seen.add(key)
         res["violations"][i] = shrink(v)
     classify_known([v for v in res["violations"] if v["kind"] == "text-differs"])      # a shrunk input may show a known failure
+    run_line_ends(ctx, res, ctx.n(6, 300))
     run_strings_dfxp(ctx, res, ctx.n(720, 40000))
     res["rule"] = ("A: 12-cue documents of random structured inline content per format (1-3 lines, nested inline tags in every "
                    "start-tag shape, per-character spellings raw/named/decimal/hex, source line wraps also next to inline "
@@ -1192,6 +1273,9 @@ def replay(ctx, rec):
                 items.append(tuple(it))
         ok, detail = check_one(rec["fmt"], items)
         return (not ok), detail
+    if rec.get("replay") == "doc-lines":
+        v = judge_line_end_doc(rec["fmt"], rec["document"], rec["expected"])
+        return (v is not None), (v[1] if v else None)
     if rec.get("replay") == "dfxp-str":
         v, _ = judge_strings([rec["input"]])[0]
         return (v is not None), (v or {}).get("what")
